@@ -166,3 +166,10 @@ def PRIM_DEFAULT_MATCHES(default: object, t: object) -> bool:
         return (not isinstance(default, bool)) and (isinstance(default, int) or isinstance(default, float)
                                                      or (isinstance(default, str) and f_str_parses(default)))
     return True
+
+
+@spec
+def NT(schema: dict) -> dict:
+    """the name table a parsed schema carries, as parse_schema rebuilds it entry by entry into an empty table
+    (for a dictionary -- distinct keys -- that is the carried table itself)"""
+    return MERGED({}, schema["__named_schemas"], len(schema["__named_schemas"]))
